@@ -48,7 +48,7 @@ pub fn flat_world(rng: &mut Rng, nt: usize, ncmd: usize, max_retained: usize, un
         }
         targets.push(TargetSpec { path, ..Default::default() });
     }
-    WorldSpec { targets, cmd_files, files: vec![], sequences: vec![], max_retained_runs: max_retained, gitignore: vec![], git }
+    WorldSpec { targets, cmd_files, files: vec![], sequences: vec![], max_retained_runs: max_retained, gitignore: vec![], git, lock_host: None }
 }
 
 /// A run step over a flat world: explicit targets (or all), a subset of commands, serial-tagged output.
@@ -184,20 +184,66 @@ pub struct C12Scenario {
 
 pub struct C12;
 
+/// A history whose middle run prints a result document larger than 1 MiB (many targets with long paths x a
+/// long sequence of mostly undefined commands), between ordinary runs.
+fn gen_c12_huge(rng: &mut Rng) -> C12Scenario {
+    let nt = 40;
+    let mut targets = vec![];
+    let mut cmd_files = vec![];
+    for i in 0..nt {
+        let path = format!("t{:02}-{}", i, "long-directory-name-".repeat(8));
+        if i % 7 == 0 {
+            cmd_files.push(CmdFile { target: path.clone(), command: "c000".into(), rel: WorldSpec::default_cmd_rel(&path, "c000"), exec: true, broken: false });
+        }
+        cmd_files.push(CmdFile { target: path.clone(), command: "build".into(), rel: WorldSpec::default_cmd_rel(&path, "build"), exec: true, broken: false });
+        targets.push(TargetSpec { path, ..Default::default() });
+    }
+    let seq: Vec<String> = (0..165).map(|i| format!("c{:03}", i)).collect();
+    let spec = WorldSpec { targets, cmd_files, files: vec![], sequences: vec![("big".into(), seq)], max_retained_runs: 2, gitignore: vec![], git: false, lock_host: None };
+    let small = |serial: usize, spec: &WorldSpec| {
+        let t = spec.targets[serial % 5].path.clone();
+        RunStep {
+            opts: RunOpts { commands: vec!["build".into()], targets: vec![t.clone()], ..Default::default() },
+            behav: vec![Behav { command: "build".into(), target: t.clone(), outs: vec![OutStep { fd: 1, hex: hex(format!("r{} build {} fd1 line0\n", serial, t).as_bytes()), pause_ms: 0, close: false }], code: 0, exit_pause_ms: 0, early_exit: false, hold_pipes_ms: 0 }],
+            rejected: false,
+            edits: vec![],
+            cp_update_before: false,
+        }
+    };
+    let big = RunStep { opts: RunOpts { sequences: vec!["big".into()], ..Default::default() }, behav: vec![], rejected: false, edits: vec![], cp_update_before: false };
+    let runs = vec![small(1, &spec), big, small(3, &spec)];
+    C12Scenario { spec, runs, rand_seed: rng.next_u64() % 1_000_000, checkpointed: false, unlink_delay_us: None }
+}
+
 fn gen_c12(seed: u64, idx: usize, tier: Tier) -> C12Scenario {
     let mut rng = Rng::new(scenario_seed(seed, "C12", idx));
-    let max = *rng.pick(&[1usize, 2, 3, 5]);
+    if rng.chance(1, 50) {
+        return gen_c12_huge(&mut rng);
+    }
+    // mostly small rings; one in eight a ring of 10-12 slots (two-digit slot names) with a history that wraps it
+    let big_ring = rng.chance(1, 8);
+    let max = if big_ring { rng.range(10, 12) } else { *rng.pick(&[1usize, 2, 3, 5]) };
     let nt = rng.range(2, 4);
     let ncmd = rng.range(2, 3);
     let checkpointed = rng.chance(1, 3);
     let spec = flat_world(&mut rng, nt, ncmd, max, 10, checkpointed);
     let mult = if tier == Tier::Thorough { rng.range(3, 6) } else { rng.range(3, 4) };
-    let n = (max * mult).max(4).min(24);
+    let n = if big_ring { max + rng.range(2, 6) } else { (max * mult).max(4).min(24) };
     let mut runs: Vec<RunStep> = (1..=n).map(|i| gen_step(&mut rng, &spec, i, true, ncmd)).collect();
     for r in runs.iter_mut().skip(1) {
         if rng.chance(1, 7) {
+            // invocations monorail must reject before it runs anything, for different reasons
             r.rejected = true;
-            r.opts.sequences = vec!["no-such-sequence".into()];
+            match rng.below(3) {
+                0 => r.opts.sequences = vec!["no-such-sequence".into()],
+                1 => {
+                    // --args needs exactly one command and one target
+                    r.opts.commands = vec!["build".into(), "test".into()];
+                    r.opts.targets = vec![spec.targets[0].path.clone()];
+                    r.opts.args = vec!["x".into()];
+                }
+                _ => r.opts.targets = vec!["no/such/target".into()],
+            }
         }
     }
     if checkpointed {
